@@ -224,6 +224,10 @@ def non_empty_tokens(ctx, res, rule):
                 res.cannot(rule, fn, site, "the slice was not reached by the guard walker", T.loc(v))
             elif oblig.Prover(o["facts"]).entails(oblig.lt(lo, hi)):
                 res.holds(rule, fn, site, "dominating guards give %s < %s" % (T.render(rf.get("start") or {"k": "lit", "v": [0]}), T.render(rf["end"])))
+            elif "start" in rf and _guarded_unequal(parents, n, T.render(rf["start"]), T.render(rf["end"])) and c01_premises.tok_byte_start_assign(ctx)[0]:
+                # `start != end` under the scan invariant start <= end (the start only ever holds 0 or an earlier char_indices
+                # position - the premise the slice itself is audited with)
+                res.holds(rule, fn, site, "guard %s != %s, and the token start never lies behind the current position" % (T.render(rf["start"]), T.render(rf["end"])))
             else:
                 res.add(Finding(rule, fn, site, "a token is cut from `%s` without a dominating guard from which start < end follows: an empty "
                                 "token can be emitted (e.g. between two adjacent tags)" % T.render(v), loc=T.loc(v)))
@@ -255,6 +259,25 @@ def non_empty_tokens(ctx, res, rule):
                 res.add(Finding(rule, fn, site, "the token that runs to the end of the source is built without a test that the source has a "
                                 "last character: an empty source would yield an empty token", loc=T.loc(v)))
     res.floor(rule, "Token literals with a slice of the source as text", sites, 2)
+
+
+def _guarded_unequal(parents, node, a, b):
+    """Is `node` inside the branch of an `if` that is taken only when the terms a and b differ?"""
+    want = {"(%s == %s)" % (a, b), "(%s == %s)" % (b, a)}
+    wantne = {"(%s != %s)" % (a, b), "(%s != %s)" % (b, a)}
+    for par in parents:
+        if par.get("k") != "if":
+            continue
+        c = T.peel(par["cond"])
+        inside_then = any(x is node for x in T.nodes(par["then"]))
+        inside_else = par.get("els") is not None and any(x is node for x in T.nodes(par["els"]))
+        txt = T.render(c)
+        neg = c.get("k") == "unary" and c.get("op") == "!" and T.render(T.peel(c["e"])) in want
+        if inside_then and (txt in wantne or neg):
+            return True
+        if inside_else and txt in want:
+            return True
+    return False
 
 
 def token_boundaries(ctx, res, rule):
